@@ -818,7 +818,11 @@ func (e *Env) callExpr(x *ECall) tv {
 		if !ok {
 			e.fail("fncalls(f, \"name\"): the name must be a string literal")
 		}
-		f := u.evalTerm(e, x.Args[0])
+		fv := e.eval(x.Args[0])
+		f, isTerm := fv.v.(*Term)
+		if !isTerm {
+			f = u.reifyFn(fv.v)
+		}
 		if f.Sort != SFn {
 			e.fail("fncalls(): function value expected, got %s", f.Sort)
 		}
@@ -826,6 +830,9 @@ func (e *Env) callExpr(x *ECall) tv {
 		var alts []*Term
 		for _, cand := range u.prog.callersOf(u.fn, nm.Val) {
 			alts = append(alts, Eq(App(SInt, fs, f), IntLit(int64(u.prog.fnID(cand)))))
+		}
+		for _, k := range u.prog.boundKeys(u.fn, nm.Val) {
+			alts = append(alts, Eq(App(SInt, fs, f), IntLit(int64(u.prog.fnIDKey(k)))))
 		}
 		if len(alts) == 0 {
 			return tv{False, types.Typ[types.Bool]}
